@@ -1934,3 +1934,59 @@ package sdf
 //@   ensures [distance-found-by-the-tree-search] d2 >= 0 ==> abs(r) == sqrt(d2)
 //@   ensures [negative-exactly-when-the-winding-number-is-not-zero] (wn != 0 ==> r <= 0) && (wn == 0 ==> r >= 0)
 //@ end
+
+//-----------------------------------------------------------------------------
+// C17: profile builders (sdf/poly.go, sdf/bezier.go)
+
+//@ func PolygonVertex.Rel
+//@   property C17
+//@   id marks-relative
+//@   ensures [marked] v.relative && r == v
+//@   ensures [nothing-else-changes] v.vertex == old(v.vertex) && v.vtype == old(v.vtype) && v.facets == old(v.facets) && v.radius == old(v.radius)
+//@ end
+
+//@ func PolygonVertex.Polar
+//@   property C17
+//@   id polar-to-cartesian
+//@   ensures [radius-angle-to-x-y] v.vertex.X == old(v.vertex.X)*cos(old(v.vertex.Y)) && v.vertex.Y == old(v.vertex.X)*sin(old(v.vertex.Y)) && r == v
+//@   ensures [nothing-else-changes] v.relative == old(v.relative) && v.vtype == old(v.vtype) && v.facets == old(v.facets) && v.radius == old(v.radius)
+//@ end
+
+//@ func PolygonVertex.Smooth
+//@   property C17
+//@   id marks-fillet
+//@   ensures [fillet-of-that-radius-and-facets] radius != 0 && facets != 0 ==> v.vtype == pvSmooth && v.radius == radius && v.facets == facets
+//@   ensures [nothing-to-do] radius == 0 || facets == 0 ==> v.vtype == old(v.vtype) && v.radius == old(v.radius) && v.facets == old(v.facets)
+//@   ensures [position-kept] v.vertex == old(v.vertex) && v.relative == old(v.relative) && r == v
+//@ end
+
+//@ func PolygonVertex.Chamfer
+//@   property C17
+//@   id one-facet-fillet
+//@   ensures [a-single-facet-whose-cut-points-are-size-from-a-right-angle-vertex] size != 0 ==> v.vtype == pvSmooth && v.facets == 1 && v.radius == size*0.7071067811865476
+//@   ensures [nothing-to-do] size == 0 ==> v.vtype == old(v.vtype) && v.radius == old(v.radius) && v.facets == old(v.facets)
+//@   ensures [position-kept] v.vertex == old(v.vertex) && v.relative == old(v.relative) && r == v
+//@ end
+
+//@ func PolygonVertex.Arc
+//@   property C17
+//@   id marks-arc
+//@   ensures [arc-of-that-radius-and-facets] radius != 0 && facets != 0 ==> v.vtype == pvArc && v.radius == radius && v.facets == facets
+//@   ensures [nothing-to-do] radius == 0 || facets == 0 ==> v.vtype == old(v.vtype) && v.radius == old(v.radius) && v.facets == old(v.facets)
+//@   ensures [position-kept] v.vertex == old(v.vertex) && v.relative == old(v.relative) && r == v
+//@ end
+
+//@ func Nagon
+//@   property C17
+//@   id regular
+//@   invariant 0 0 <= i && i <= n && len(v) == n
+//@   invariant 0 p.Length2() == sq(radius)
+//@   invariant 0 forall k int :: 0 <= k && k < i ==> v[k].Length2() == sq(radius)
+//@   invariant 0 forall k int :: 1 <= k && k < i ==> v[k] == m.MulPosition(v[k - 1])
+//@   invariant 0 i >= 1 ==> p == m.MulPosition(v[i - 1])
+//@   invariant 0 i >= 1 ==> v[0] == v2.Vec{radius, 0}
+//@   ensures [fewer-than-three-sides-is-nothing] n < 3 ==> isnil(r)
+//@   ensures [n-vertices] n >= 3 ==> len(r) == n && r[0] == v2.Vec{radius, 0}
+//@   ensures [all-on-the-circle] forall k int :: n >= 3 && 0 <= k && k < n ==> r[k].Length2() == sq(radius)
+//@   ensures [each-the-previous-one-turned-by-a-full-turn-over-n] forall k int :: n >= 3 && 1 <= k && k < n ==> r[k] == Rotate(2*PI/real(n)).MulPosition(r[k - 1])
+//@ end
